@@ -199,7 +199,7 @@ BWAllowed(t, m, addr, ws) ==
 BWMem(t, m, addr, ws) == SetWords(t, m, addr, ws)
 
 (* C03: block read and iteration *)
-Readable(a) == a.rd = 1
+Readable(a) == a.rd = 1 /\ a.kind # 3          \* kind 3: an area without a read function reads as zero whatever its flag says
 BRResult(t, m, addr, n) ==
     LET un == Unmapped(t, addr, n)
     IN IF n > 0 /\ un # {} THEN <<NOENTRY, MinOfSet(un)>>
